@@ -31,6 +31,18 @@ def Table.ofRange {α : Type} (n : Nat) (f : Nat → α × α) : Table α := fun
 /-- `WmcParams::new(table)`: the weight of an absent label (the Rust panics) is `(zero, zero)` -/
 def Table.params {α : Type} (S : SROps α) (t : Table α) : Weights α := fun v => (t v).getD (S.zero, S.zero)
 
+/-- what the tools may do with `f64` weights beyond the semiring operations (`-`, `/`, `abs`, comparisons, literals other than
+0 and 1, `f64::EPSILON`): uninterpreted.  The pristine tools use none of these; a generated definition that needs them takes an
+`R : RealOps α` and can therefore not be the model's definition. -/
+structure RealOps (α : Type) where
+  sub : α → α → α
+  div : α → α → α
+  abs : α → α
+  le : α → α → Bool
+  lt : α → α → Bool
+  eps : α
+  ofLit : String → α
+
 /-- `HashMap::get` on an association list (first entry wins) -/
 def lookup {κ β : Type} [DecidableEq κ] : List (κ × β) → κ → Option β
   | [], _ => none
